@@ -33,7 +33,8 @@ ASSUMPTIONS = ['RefSupport: discrete offline supports everything; online kinds s
 REAL = common.REAL_ALL
 STUBS = common.STUBS_ALL
 PROBES = ['one_sample_trace', 'declared_unused_var', 'supplied_undeclared_var', 'permuted_inputs', 'empty_batch', 'unsupported_rejected',
-          'rejected_at_parse', 'rejected_at_pastify', 'rejected_at_first_evaluation', 'reset_called', 'combined_class']
+          'rejected_at_parse', 'rejected_at_pastify', 'rejected_at_first_evaluation', 'reset_called', 'combined_class',
+          'object_reused_for_another_log']
 
 UNSUPPORTED = {
     # kind, pastify -> constructs that must be rejected
@@ -130,6 +131,14 @@ def gen(rng, tier):
         sc['data'] = world.gen_trace(rng, declared, n)
         if n == 1:
             shapes.append('one_sample_trace')
+    if kind in ('dt_off', 'ct_off') and rng.random() < 0.3:
+        # the same offline object is used again for another log (shorter, same length or longer)
+        if dense:
+            sc['again'] = dict((v, world.gen_dense_signal(rng, rng.randint(1, 6), start_q=0, max_gap_q=4)[0]) for v in declared)
+        else:
+            n2 = rng.choice([1, max(1, sc['n'] - 1), max(1, sc['n'] // 2), sc['n'], sc['n'] + 2])
+            sc['again'] = {'n': n2, 'data': world.gen_trace(rng, declared, n2)}
+        shapes.append('object_reused_for_another_log')
     order = list(declared)
     rng.shuffle(order)
     sc['order'] = order
@@ -161,6 +170,10 @@ def run(sc):
         if not common.ref_defined([sc['ast']], dense, data, sc.get('n')):
             r.discarded = True
             return r
+    again = sc.get('again')
+    if again and not unsupported:
+        if not common.ref_defined([sc['ast']], dense, again if dense else again['data'], None if dense else again['n']):
+            again = None
     desc = desc_of(sc)
     stage = 'construct'
     value = None
@@ -201,6 +214,12 @@ def run(sc):
                         break
             else:
                 value = M.ct_evaluate(spec, sig, order)
+                if again:
+                    stage = 'evaluate-again'
+                    sig2 = dict(again)
+                    if sc.get('extra_supplied'):
+                        sig2['zz'] = [[0.0, 1.0], [1.0, 2.0]]
+                    value = [value, M.ct_evaluate(spec, sig2, order)]
         else:
             n = sc['n']
             if online:
@@ -218,6 +237,15 @@ def run(sc):
                 if sc.get('extra_supplied'):
                     d['zz'] = [1.0] * n
                 value = M.dt_evaluate(spec, list(range(n)), d, sc['order'] + (['zz'] if sc.get('extra_supplied') else []))
+                if again:
+                    stage = 'evaluate-again'
+                    d2 = dict(again['data'])
+                    if sc.get('extra_supplied'):
+                        d2['zz'] = [1.0] * again['n']
+                    v2 = M.dt_evaluate(spec, list(range(again['n'])), d2, sc['order'] + (['zz'] if sc.get('extra_supplied') else []))
+                    if not isinstance(v2, list) or len(v2) != again['n']:
+                        r.violate('supported-use-wrong-shape', kind=sc['cls'], spec=desc['spec'], first_n=n, n=again['n'], got=v2)
+                    value = [value, v2]
         stage = 'done'
     except M.ApiCrash as e:
         r.obs.append([stage, e.exc_type])
@@ -263,6 +291,10 @@ def shrinks(sc):
     if sc.get('do_reset'):
         c = copy.deepcopy(sc)
         c['do_reset'] = False
+        yield c
+    if sc.get('again'):
+        c = copy.deepcopy(sc)
+        c['again'] = None
         yield c
     if sc['declared'] != sc['vars'] and not dense:
         c = copy.deepcopy(sc)
